@@ -76,6 +76,23 @@ def yieldto_cases(draw, ctx):
 
 @st.composite
 def cases(draw, ctx):
+    if ctx.get("variant") == "stacked":
+        # stacked schedulers: the hosting stream is joined while the stacked scheduler (and
+        # the units in its pools) may still be waiting in the host's pool
+        from gen import c01
+        text = draw(c01.stacked_cases(ctx))
+        lines = text.splitlines()
+        nxs = sum(1 for l in lines if l.startswith("xs "))
+        out = []
+        for l in lines:
+            if l.startswith("cfg "):
+                l += " drain=0"
+            if l.startswith("main : "):
+                for x in draw(st.permutations(list(range(1, nxs)))):
+                    if draw(st.integers(0, 3)) > 0:
+                        l += "; %s %d" % (draw(st.sampled_from(["xsjoin", "xsjoin", "xsfree"])), x)
+            out.append(l)
+        return "\n".join(out) + "\nnote c06-stacked\n"
     if ctx.get("variant") == "resumerace":
         # suspended ULTs resumed from other threads while their stream is being joined
         from gen import c11
@@ -241,6 +258,8 @@ def classify(text, res, ctx):
 
 
 def nontrivial(text, res, ctx):
+    if "note c06-stacked" in text:
+        return stat(res, "stacked_scheds") >= 1 and "xs" in text.split("main :")[-1]
     if "note c06-resumerace" in text:
         return stat(res, "resumes") >= 1 and "xs" in text.split("main :")[-1]
     if "note yieldto" in text:
@@ -250,8 +269,9 @@ def nontrivial(text, res, ctx):
 
 PLAN = {
     "quick": [("coarse", 9, 250), ("san", 4, 80), ("native", 2, 150), ("coarse", 2, 200, "yieldto"),
-              ("native", 1, 100, "yieldto"), ("coarse", 3, 300, "resumerace")],
+              ("native", 1, 100, "yieldto"), ("coarse", 3, 300, "resumerace"),
+              ("coarse", 2, 250, "stacked"), ("san", 1, 150, "stacked")],
     "thorough": [("coarse", 6, 5000), ("fine", 6, 3000), ("san", 2, 1500), ("nopool", 1, 1000),
                  ("native", 1, 2500), ("coarse", 2, 3000, "yieldto"), ("native", 1, 1000, "yieldto"),
-                 ("coarse", 3, 5000, "resumerace")],
+                 ("coarse", 3, 5000, "resumerace"), ("coarse", 2, 4000, "stacked"), ("san", 2, 2000, "stacked")],
 }
